@@ -115,6 +115,15 @@ INPUTS: dict[str, tuple[dict[str, str], str]] = {
         },
         "pk",
     ),
+    "T12-same-class-name-in-modules-a-and-ab": (
+        {
+            "pk/__init__.py": "",
+            "pk/a.py": "class Dup:\n    def from_a(self) -> int:\n        return 1\n\n\nclass Sub_a(Dup):\n    pass\n\n\ndef mk_a() -> Dup:\n    d = Dup()\n    return d\n",
+            "pk/ab.py": "class Dup:\n    def from_ab(self) -> int:\n        return 1\n\n\nclass Sub_ab(Dup):\n    pass\n\n\ndef mk_ab() -> Dup:\n    d = Dup()\n    return d\n",
+            "pk/abc.py": "class Dup:\n    def from_abc(self) -> int:\n        return 1\n\n\nclass Sub_abc(Dup):\n    pass\n\n\ndef mk_abc() -> Dup:\n    d = Dup()\n    return d\n",
+        },
+        "pk",
+    ),
     "T9-directory-order": (
         {
             "pk/__init__.py": "from .zz.b import Bz\nfrom .aa.a import Az\n",
